@@ -208,7 +208,9 @@ impl Check for C01Check {
                 }
                 if let Err(e) = &r {
                     if !world::is_value_dependent_fault(e) {
-                        return Err(narrowed(Violation::new(format!("static-fault/{}", variant_name(e)), format!("budget fault at point {k}: cycle reported {e:?}"))));
+                        let drift = world::tag_drift(&w, &declared_tags);
+                        let sig = if drift.is_empty() { format!("static-fault/{}", variant_name(e)) } else { format!("static-fault/{}/with-tag-drift", variant_name(e)) };
+                        return Err(narrowed(Violation::new(sig, format!("budget fault at point {k}: cycle reported {e:?}; slots holding a tag other than declared: {:?}", drift.iter().take(4).collect::<Vec<_>>()))));
                     }
                 }
                 if !fired {
